@@ -78,7 +78,7 @@ func ruleCtorReopen(c *Ctx, r *Report, prefix string) {
 			}
 			// stripConv turns the getter call into the field load it returns
 			if u, ok := v.(*ssa.UnOp); ok && u.Op == token.MUL {
-				if fa, ok := u.X.(*ssa.FieldAddr); ok && fieldOfAddr(fa).Name() == "head" {
+				if fa, ok := u.X.(*ssa.FieldAddr); ok && refNameOf(fieldOfAddr(fa)) == "head" {
 					return true
 				}
 			}
@@ -210,11 +210,11 @@ func ruleEncoderDictArgs(c *Ctx, r *Report, prefix string) {
 					v = stripConv(v)
 					if u, ok := v.(*ssa.UnOp); ok && u.Op == token.MUL {
 						if fa, ok := u.X.(*ssa.FieldAddr); ok {
-							return fieldOfAddr(fa).Name()
+							return refNameOf(fieldOfAddr(fa))
 						}
 					}
 					if f, ok := v.(*ssa.Field); ok {
-						return fieldOfField(f).Name()
+						return refNameOf(fieldOfField(f))
 					}
 					return "?"
 				}
